@@ -127,7 +127,7 @@ func (w *c11World) line(c *Ctx, in string) {
 		w.names = append(w.names, parts[1])
 		w.obs(c, in, ms(25))
 	case "login": // login <name> <user>
-		pw := map[string]string{"alice": "pw-alice", "bob": "pw-bob"}[parts[2]]
+		pw := map[string]string{"alice": "pw-alice", "bob": "pw-bob", "carol": "pw-carol"}[parts[2]]
 		if wc := w.conns[parts[1]]; wc != nil {
 			wc.c.WriteMessage(websocket.TextMessage, []byte(loginJSON(parts[2], pwHash(pw), packager.Type.InitConnection.Type, packager.Type.InitConnection.OAuthRequest, "")))
 		}
@@ -148,7 +148,7 @@ func (w *c11World) line(c *Ctx, in string) {
 		var cnt, kb int
 		fmt.Sscan(parts[2], &cnt)
 		fmt.Sscan(parts[3], &kb)
-		r := guardT(25*time.Second, func() string {
+		r := guardT(70*time.Second, func() string { // every stalled operator costs one write deadline (15 s)
 			for i := 0; i < cnt; i++ {
 				pk := chatPackage(fmt.Sprintf("%s.%d", parts[1], i), true, kb*1024)
 				w.ts.EventAppend(pk)
@@ -158,11 +158,44 @@ func (w *c11World) line(c *Ctx, in string) {
 		})
 		w.settle()
 		c.Emit("%s => call=%s %s %s", in, r, w.obsAll(w.names, ms(10)), w.state())
+	case "slowreplay": // slowreplay <new> <user> <remover> <listener> <marker> <count> <kb>: a newcomer's replay is slow (it does not
+		// read for a while); while it is under way another operator removes a listener whose add event is early in the log
+		var cnt, kb int
+		fmt.Sscan(parts[6], &cnt)
+		fmt.Sscan(parts[7], &kb)
+		r := guardT(40*time.Second, func() string {
+			for i := 0; i < cnt; i++ {
+				pk := chatPackage(fmt.Sprintf("%s.%d", parts[5], i), false, kb*1024)
+				w.ts.EventAppend(pk)
+				w.ts.EventBroadcast("", pk)
+			}
+			wc, err := w.dial("havoc/")
+			if err != nil {
+				return "DIALERR"
+			}
+			wc.pause()
+			w.conns[parts[1]] = wc
+			w.names = append(w.names, parts[1])
+			pw := map[string]string{"alice": "pw-alice", "bob": "pw-bob", "carol": "pw-carol"}[parts[2]]
+			wc.c.WriteMessage(websocket.TextMessage, []byte(loginJSON(parts[2], pwHash(pw), packager.Type.InitConnection.Type, packager.Type.InitConnection.OAuthRequest, "")))
+			time.Sleep(ms(200))
+			if rm := w.conns[parts[3]]; rm != nil {
+				rm.c.WriteMessage(websocket.TextMessage, []byte(fmt.Sprintf(`{"Head":{"Event":%d,"User":"x","Time":"t"},"Body":{"SubEvent":%d,"Info":{"Name":%q}}}`,
+					packager.Type.Listener.Type, packager.Type.Listener.Remove, parts[4])))
+			}
+			time.Sleep(ms(200))
+			wc.resume()
+			return "done"
+		})
+		w.settle()
+		c.Emit("%s => call=%s %s %s", in, r, w.obsAll(w.names, ms(10)), w.state())
 	case "cutburst": // cutburst <name> <marker> <k>: the transport is cut and k events are recorded at once, before the server has noticed
 		var k int
 		fmt.Sscan(parts[3], &k)
-		if wc := w.conns[parts[1]]; wc != nil {
-			wc.c.UnderlyingConn().Close()
+		for _, n := range strings.Split(parts[1], "+") { // one operator, or several at the same moment
+			if wc := w.conns[n]; wc != nil {
+				wc.c.UnderlyingConn().Close()
+			}
 		}
 		r := guardT(20*time.Second, func() string {
 			for i := 0; i < k; i++ {
@@ -263,15 +296,33 @@ func runC11(c *Ctx) {
 		return
 	}
 	r := c.R
+	slowBudget := 3 // slow replays move ~8 MB each: a few per run
+	if c.Tier == "thorough" {
+		slowBudget = 12
+	}
+	// two operators stall at the same time while a third one watches: distribution to the third goes on, both are dropped
+	w.line(c, "reset")
+	for i, u := range []string{"alice", "bob", "carol"} {
+		n := string(rune('a' + i))
+		w.line(c, "conn "+n)
+		w.line(c, "login "+n+" "+u)
+	}
+	w.line(c, "record m0 0 -")
+	w.line(c, "stall a")
+	w.line(c, "stall b")
+	w.line(c, "flood f0 24 512")
+	w.line(c, "record m1 0 -")
+	c.Count("prelude.two-stalled")
 	for c.Lines < c.N {
 		w.line(c, "reset")
 		var open []string   // connected, not yet logged in
 		var authed []string // logged in and healthy
 		var listeners []string
-		users := []string{"alice", "bob"}
+		users := []string{"alice", "bob", "carol"}
 		used := map[string]bool{}
 		nconn, nreg, mark := 0, 0, 0
 		stalled := false
+		_ = slowBudget
 		doConn := func() {
 			n := string(rune('a' + nconn))
 			nconn++
@@ -326,6 +377,7 @@ func runC11(c *Ctx) {
 			add(len(authed) > 0, 2, "chat")
 			add(len(authed) > 0, 3, "ladd")
 			add(len(authed) > 0 && len(listeners) > 0, 3, "lremove")
+			add(len(authed) > 0 && len(listeners) > 0 && len(freeUsers()) > 0 && !stalled && slowBudget > 0, 2, "slowreplay")
 			add(true, 2, "register")
 			add(len(authed) > 0 && nreg > 0, 2, "dead")
 			add(len(authed) > 0, 2, "leave")
@@ -394,11 +446,30 @@ func runC11(c *Ctx) {
 				how := gen.Pick(r, []string{"close", "cut", "cutburst"})
 				if how == "cutburst" {
 					mark++
-					w.line(c, fmt.Sprintf("cutburst %s b%d %d", n, mark, 2+r.Intn(12)))
+					if len(authed) >= 2 && r.Chance(1, 2) { // two operators go away at the same moment, a third is watching
+						j := r.Intn(len(authed))
+						n2 := authed[j]
+						authed = append(authed[:j], authed[j+1:]...)
+						w.line(c, fmt.Sprintf("cutburst %s+%s b%d %d", n, n2, mark, 2+r.Intn(12)))
+						c.Count("op.cutburst.two")
+					} else {
+						w.line(c, fmt.Sprintf("cutburst %s b%d %d", n, mark, 2+r.Intn(12)))
+					}
 				} else {
 					w.line(c, how+" "+n)
 				}
 				c.Count("op." + how)
+			case "slowreplay":
+				mark++
+				u := freeUsers()[0]
+				used[u] = true
+				n := string(rune('a' + nconn))
+				nconn++
+				ln := gen.Pick(r, listeners)
+				w.line(c, fmt.Sprintf("slowreplay %s %s %s %s z%d %d 256", n, u, gen.Pick(r, authed), ln, mark, 24+r.Intn(16)))
+				slowBudget--
+				authed = append(authed, n)
+				c.Count("op.slowreplay")
 			case "burst":
 				mark++
 				w.line(c, fmt.Sprintf("burst g%d %d %d", mark, 4+r.Intn(5), 20+r.Intn(40)))
